@@ -86,7 +86,10 @@ class World18:
                                 "value_type": I.builtins["float"], "dtype": "float32", "end": None}, label="var:v")
         self.tbs = E.mk_tbs(I, {"v": self.var})
         self.sim = Obj(R(SIM), {}, label="sim")
-        self.holder = Obj(R(HOLDER), {"variable": self.var, "simulation": self.sim}, label="holder:v")
+        # the holder was created earlier, with the definition the system had then: the system's CURRENT definition
+        # (self.var) is what a request must be evaluated with
+        self.stale_var = Obj(R(VAR), dict(self.var.fields), label="var:v(as-when-the-holder-was-created)")
+        self.holder = Obj(R(HOLDER), {"variable": self.stale_var, "simulation": self.sim}, label="holder:v")
         self.pop = Obj(R("openfisca_core.populations.population.Population"),
                        {"entity": self.entity, "simulation": self.sim, "_holders": dict_of([("v", self.holder)]),
                         "count": B.wrap(ctx.fresh_int("count"))}, label="persons")
@@ -251,14 +254,14 @@ class SimInnerCalculate(Contract):
         if not ok_seq:
             return res
         res.append(("cycle-checked-for-this-variable-and-period", cyc[0]["args"]["variable"] == "v" and cyc[0]["args"]["period"] is a["period"]))
-        res.append(("formula-run-for-this-variable-population-period",
+        res.append(("formula-of-the-system's-current-definition-run-for-this-population-and-period",
                     rf[0]["args"]["variable"] is w.var and rf[0]["args"]["population"] is w.pop and rf[0]["args"]["period"] is a["period"]))
         if rf[0]["value"] is None:
             d = [e for e in log if e["callee"] == "default_array"]
             res.append(("no-formula-result-means-the-default", len(d) == 1 and cast[0]["args"]["value"] is d[0]["value"]))
         else:
             res.append(("formula-result-is-what-gets-cast", cast[0]["args"]["value"] is rf[0]["value"] and "default_array" not in tags))
-        res.append(("cast-to-the-variable-type", cast[0]["args"]["variable"] is w.var))
+        res.append(("cast-to-the-type-of-the-system's-current-definition", cast[0]["args"]["variable"] is w.var))
         res.append(("cast-result-stored-at-the-requested-period", put[0]["args"]["value"] is cast[0]["value"] and put[0]["args"]["period"] is a["period"]))
         res.append(("cast-result-returned", out[1] is cast[0]["value"]))
         return res
@@ -594,9 +597,91 @@ class SimCastFormulaResult(Contract):
                 ("same-values", z3.Implies(z3.And(i >= 0, i < B._z(r.n)), B.zreal(r.elem(i)) == B.zreal(a["value"].elem(i))))]
 
 
+def trace_tree(I, shape):
+    """builds a trace forest from nested tuples (name, [children]); returns (tracer, nodes in creation order)"""
+    R = I.resolve_qualified
+    order = []
+    p = mk_period(I, "year", mk_instant(I, 2020, 1, 1), 1)
+
+    def build(spec, parent):
+        name, kids = spec
+        n = Obj(R(TNODE), {"name": name, "period": p, "parent": parent, "children": ListVal([]), "parameters": ListVal([]),
+                           "value": Opaque(None, "value-of-" + name, {}), "start": 0.0, "end": 0.0}, label="node:" + name)
+        order.append(n)
+        for k in kids:
+            n.fields["children"].items.append(build(k, n))
+        return n
+    trees = ListVal([build(s, None) for s in shape])
+    tr = Obj(R(FULL), {"_simple_tracer": Obj(R(SIMPLE), {"_stack": ListVal([])}), "_trees": trees, "_current_node": None}, label="full-tracer")
+    return tr, order
+
+
+TREES = {
+    "cached-re-read-closer-to-the-root": [("net", [("tax", [("gross", [("base", []), ("bonus", [])])]), ("gross", [])])],
+    "two-trees": [("a", [("b", [("c", [])]), ("d", [])]), ("e", [("c", [])])],
+    "deep-left-wide-right": [("r", [("x", [("y", [("z", [])])]), ("u", []), ("v", [("z", [])])])],
+}
+
+
+class TracerBrowse(Contract):
+    name = f"{FULL}.browse_trace"
+    prop = ("C17",)
+    top_level = True
+    cases = tuple(TREES)
+    descr = "the trace is browsed in the order the calculations started (depth first, parents before children, trees in order)"
+
+    def setup(self, I, ctx, case):
+        tr, order = trace_tree(I, TREES[case])
+        return {"self": tr, "__order": order}
+
+    def post(self, I, ctx, a, out, old):
+        if out[0] != "return":
+            return [("no-exception", False)]
+        got = I.iterate(ctx, out[1])
+        return [("every-node-once", len(got) == len(a["__order"])),
+                ("in-the-order-the-calculations-started", len(got) == len(a["__order"]) and all(x is y for x, y in zip(got, a["__order"])))]
+
+
+class FlatTraceGet(Contract):
+    name = "openfisca_core.tracers.flat_trace.FlatTrace.get_trace"
+    prop = ("C17",)
+    top_level = True
+    cases = tuple(TREES)
+    descr = ("the flat trace lists, for each calculated variable and period, the reads its formula performed (those of its first, "
+             "real calculation, not of a later cache read) and the value returned")
+    inline = (f"{FULL}.browse_trace", "openfisca_core.tracers.flat_trace.FlatTrace.*", TNODE + ".*",
+              "openfisca_core.periods.period_.Period.__str__")
+
+    def setup(self, I, ctx, case):
+        tr, order = trace_tree(I, TREES[case])
+        ft = Obj(I.resolve_qualified("openfisca_core.tracers.flat_trace.FlatTrace"), {"_full_tracer": tr}, label="flat-trace")
+        return {"self": ft, "__order": order}
+
+    def post(self, I, ctx, a, out, old):
+        if out[0] != "return" or not isinstance(out[1], DictVal):
+            return [("returns-a-mapping", False)]
+        d = out[1]
+        first = {}
+        for n in a["__order"]:
+            first.setdefault(n.fields["name"], n)
+        from pyvc.interp import force_str
+        res = [("one-entry-per-calculated-variable-and-period", sorted(hk[1] for hk in d.items) == sorted(f"{k}<2020>" for k in first))]
+        for name, n in first.items():
+            e = d.items.get(("c", f"{name}<2020>"))
+            if not isinstance(e, DictVal):
+                res.append((f"entry-{name}", False))
+                continue
+            deps = e.items.get(("c", "dependencies"))
+            want = [f"{c.fields['name']}<2020>" for c in n.fields["children"].items]
+            res.append((f"{name}-lists-the-reads-of-its-calculation",
+                        isinstance(deps, ListVal) and [force_str(I, ctx, x) for x in deps.items] == want))
+            res.append((f"{name}-carries-the-value-returned", e.items.get(("c", "value")) is n.fields["value"]))
+        return res
+
+
 def install(I):
     pass
 
 
 CONTRACTS = [SimCalculateFull(), SimInnerCalculate(), SimRunFormula(), SimCheckForCycle(), SimInvalidateSpiral(), SimPurge(),
-             VarGetFormula(), VarDefaultArray(), SimCastFormulaResult()]
+             VarGetFormula(), VarDefaultArray(), SimCastFormulaResult(), TracerBrowse(), FlatTraceGet()]
